@@ -34,6 +34,7 @@ type FuncSpec struct {
 	Modifies   []Expr
 	ModSrc     []string
 	HasMod     bool
+	FrameProps []string // properties the frame (modifies) obligations are claimed for
 	Loops      map[int]*LoopSpec
 	Assumed    bool // trusted: body not verified
 	Inline     bool
@@ -67,8 +68,9 @@ type Macro struct {
 }
 
 type File struct {
-	Funcs  []*FuncSpec
-	Macros []*Macro
+	Funcs      []*FuncSpec
+	Macros     []*Macro
+	GlobalInvs []*Clause // Label holds the package path
 }
 
 func parseProps(s string) (kind string, props []string, label string) {
@@ -177,6 +179,13 @@ func ParseFile(path, defaultPkg string) (*File, error) {
 			}
 			curLoop = nil
 			out.Funcs = append(out.Funcs, cur)
+		case "globalinv":
+			// package-level invariant over never-reassigned globals: assumed at the entry of every function of the package
+			e, err := ParseExpr(rest)
+			if err != nil {
+				return nil, fail("%v", err)
+			}
+			out.GlobalInvs = append(out.GlobalInvs, &Clause{Kind: "globalinv", Label: pkg, Src: rest, E: e, File: path, Line: pendingLine})
 		case "spec":
 			// spec name(a, b) = expr
 			eq := strings.Index(rest, "=")
@@ -218,6 +227,9 @@ func ParseFile(path, defaultPkg string) (*File, error) {
 				cur.Ensures = append(cur.Ensures, c)
 			case "modifies":
 				cur.HasMod = true
+				if len(props) > 0 {
+					cur.FrameProps = props
+				}
 				if rest != "nothing" && rest != "" {
 					for _, m := range splitTop(rest) {
 						e, err := ParseExpr(m)
